@@ -146,6 +146,9 @@ def main(argv=None):
         print(f"KNOWN-FINDING: property={prop} {what}")
     res.extra["_known"] = known_reported
 
+    if os.environ.get("VERIF_VERBOSE"):
+        for sig in unlisted:
+            print(f"  [class] {sig} :: {res.violations[sig][0].message[:240]!r}")
     os.makedirs(os.path.join(HERE, "replays"), exist_ok=True)
     for n, sig in enumerate(unlisted[:8]):
         v = res.violations[sig][0]
